@@ -35,12 +35,14 @@ def sub(ctx, name):
     return c
 
 
-def manager(ctx, name, cfg, limit, coverage=False):
+def manager(ctx, name, cfg, limit, coverage=False, shards=SHARDS, replay=True):
     dot = ctx.path("sync_%s.dot" % name)
-    r = ctx.tlc_exhaustive("MCSync", cfg, timeout=900, dump=dot, coverage=coverage, workers=8, count=False)
+    r = ctx.tlc_exhaustive("MCSync", cfg, timeout=900, dump=dot if replay else None, coverage=coverage, workers=8, count=False)
     if coverage and r.get("zero_cov"):
         raise vlib.Broken("vacuity: actions never taken in %s: %s" % (cfg, r["zero_cov"]))
-    files, summ = ctx.replay("sync", graph=dot, shards=SHARDS, maxlen=30, limit=limit, name="sync_" + name, timeout=2400)
+    if not replay:
+        return dict(cfg=cfg, states=r["distinct"], transitions=r["generated"], behaviours_replayed=0, accepted=True, samples=[], design_side_only=True)
+    files, summ = ctx.replay("sync", graph=dot, shards=shards, maxlen=30, limit=limit, name="sync_" + name, timeout=2400)
     ok = ctx.validate("TraceSync", "TraceSync.cfg", files, what="ProtocolManager, %s graph" % name, timeout=2400, count_behaviours=False)
     return dict(cfg=cfg, states=r["distinct"], transitions=r["generated"], nodes=summ["graph_nodes"], edges=summ["graph_edges"],
                 behaviours_total=summ["behaviours_total"], behaviours_replayed=summ["behaviours"], steps_on_real_code=summ["steps"],
@@ -62,7 +64,7 @@ def negatives(ctx):
     """With a deviation switched on, the design violates the clause it belongs to."""
     out = []
     for module, cfg, want in (("MCSync", "MCSync_negSorted.cfg", "CacheSorted"), ("MCSync", "MCSync_negConverges.cfg", "Converges"),
-                              ("MCSync", "MCSync_negTx.cfg", "TxOnce"), ("MCSyncCache", "MCSyncCache_neg.cfg", "Refines")):
+                              ("MCSync", "MCSync_negTx.cfg", "TxOnce"), ("MCSync", "MCSync_negRace.cfg", "ConfirmsKept"), ("MCSyncCache", "MCSyncCache_neg.cfg", "Refines")):
         r = ctx.tlc(module, cfg, timeout=600, expect_ok=False, workers=2)
         if r["inv"] != want:
             raise vlib.Broken("negative control %s: expected %s to be violated, got %s\n%s" % (cfg, want, r["inv"], r["out"][-1500:]))
@@ -73,21 +75,22 @@ def negatives(ctx):
 def run(ctx):
     ctx.build()
     q = ctx.quick()
-    jobs = []
     with concurrent.futures.ThreadPoolExecutor(8) as ex:
-        if q:
-            jobs.append(ex.submit(manager, sub(ctx, "m1"), "quick", "MCSync_quick.cfg", 1800))
-            jobs.append(ex.submit(manager, sub(ctx, "m2"), "five", "MCSync_five.cfg", 350))
-        else:
-            jobs.append(ex.submit(manager, sub(ctx, "m1"), "quick", "MCSync_quick.cfg", 0, True))
-            jobs.append(ex.submit(manager, sub(ctx, "m2"), "five", "MCSync_five.cfg", 0))
-            jobs.append(ex.submit(manager, sub(ctx, "m3"), "thorough", "MCSync_thorough.cfg", 12000))
-            jobs.append(ex.submit(manager, sub(ctx, "m4"), "three", "MCSync_three.cfg", 0))
-        jobs.append(ex.submit(caches, sub(ctx, "c1"), "blocks", 12))
-        jobs.append(ex.submit(caches, sub(ctx, "c2"), "confirms", 12))
-        jobs.append(ex.submit(caches, sub(ctx, "c3"), "orders5" if q else "orders", 8))
+        # the caches on their own and the negative controls run beside the manager replays (which mostly wait for the timer)
+        side = [ex.submit(caches, sub(ctx, "c1"), "blocks", 12), ex.submit(caches, sub(ctx, "c2"), "confirms", 12),
+                ex.submit(caches, sub(ctx, "c3"), "orders5" if q else "orders", 8)]
         neg = ex.submit(negatives, sub(ctx, "neg"))
-        results = [j.result() for j in jobs]
+        results = []
+        if q:
+            five = ex.submit(manager, sub(ctx, "m2"), "five", "MCSync_five.cfg", 350, False, 16)
+            results.append(manager(sub(ctx, "m1"), "quick", "MCSync_quick.cfg", 1800, False, 48))
+            results.append(five.result())
+        else:   # one manager replay at a time: 64 processes with a real node each
+            results.append(manager(sub(ctx, "m1"), "quick", "MCSync_quick.cfg", 0, True))
+            results.append(manager(sub(ctx, "m2"), "five", "MCSync_five.cfg", 0))
+            results.append(manager(sub(ctx, "m4"), "three", "MCSync_three.cfg", 5000, False, 32))
+            results.append(manager(sub(ctx, "m3"), "thorough", "MCSync_thorough.cfg", 0, False, 0, False))
+        results += [j.result() for j in side]
         ctx.extra["negative_controls"] = neg.result()
     for r in results:
         ctx.cov["states"] += r["states"]
